@@ -40,5 +40,5 @@ done
 wait
 cat $base/out*.tsv | sort > seeded/RESULTS.tsv
 for j in $(seq 1 $jobs); do git -C /repo worktree remove --force $base/w$j; done
-rm -rf $base
+rm -rf $base target-_tmp_evseed_w* target-mock-_tmp_evseed_w*
 echo "done: $(wc -l < seeded/RESULTS.tsv) changes; missed: $(grep -c 'exit=0' seeded/RESULTS.tsv)"
